@@ -4,7 +4,7 @@
 //! Vec<u8>, &mut Vec<u8>, Box<Vec<u8>>, File, and - through the `dyn Write`,
 //! `dyn Write + Send`, `dyn Write + Send + Sync`, `Box<..>`, `&mut ..` impls -
 //! on a scripted writer.  17 x 17 colour pairs x 4 data tokens x EVERY script
-//! over the first P inner writes (P = 4 quick, 6 thorough; later writes accept
+//! over the first P inner writes (P = 4 quick, 8 thorough; later writes accept
 //! everything): each scripted inner write accepts the whole buffer, or a prefix
 //! of length 0 / 1 / len-1, or fails with Interrupted / WouldBlock / Other.
 //!
@@ -544,10 +544,8 @@ fn main_check(ctx: &Ctx) -> Outcome {
     let mut out = Outcome::default();
     let quick = ctx.quick();
     let opts = Opts { strict_progress: ctx.opt("strict_progress") == Some("1") };
-    let max_points: usize = ctx.opt("points").and_then(|p| p.parse().ok()).unwrap_or(if quick { 4 } else { 6 });
+    let max_points: usize = ctx.opt("points").and_then(|p| p.parse().ok()).unwrap_or(if quick { 4 } else { 8 });
     let tokens = data_tokens();
-    // silence the default panic message of caught panics (they are reported as findings)
-    std::panic::set_hook(Box::new(|_| {}));
 
     // ---- scripted writers
     let mut cases = vec![];
@@ -686,6 +684,15 @@ fn main_check(ctx: &Ctx) -> Outcome {
             "accepted_by_writer": show(&r.accepted), "returned": format!("{:?}", r.result),
         }));
     }
+    // every finding must reproduce, twice, from its replay payload alone (else it is a machinery error, not a verdict)
+    for f in &out.findings {
+        for _ in 0..2 {
+            if replay(&f.replay).is_ok() {
+                eprintln!("MACHINERY ERROR: finding {} does not reproduce from its replay payload", f.key());
+                std::process::exit(2);
+            }
+        }
+    }
     out.assume("the spelling of the colour and reset codes is not fixed by the statement: any single SGR sequence that sets exactly the requested colour, and any trailing SGR sequence(s) that restore the default state, are accepted; their order (foreground, background, data, reset) is checked");
     out.assume("when an inner write fails (or accepts 0 bytes of a non-empty buffer) the statement does not say what the call returns: Err is accepted provided the bytes the writer accepted are a cut-off frame (codes in order, data prefix unchanged, nothing after a missing piece); a frame without its reset is accepted only in runs with such a failure");
     out.assume("Err returned after the writer already accepted data bytes (the reset write failed) is counted as an observation, not a violation (--opt strict_progress=1 turns it into one); the kind of a returned error is not checked");
@@ -695,7 +702,6 @@ fn main_check(ctx: &Ctx) -> Outcome {
 }
 
 fn replay(v: &Value) -> Result<(), String> {
-    std::panic::set_hook(Box::new(|_| {}));
     let tokens = data_tokens();
     let fgi = v["fg"].as_u64().ok_or("fg")? as usize;
     let bgi = v["bg"].as_u64().ok_or("bg")? as usize;
